@@ -49,6 +49,8 @@ var reAddr = regexp.MustCompile(`0x[0-9a-f]+`)
 
 // normMsg strips the input-specific parts of an error / panic text so that it can serve in a signature.
 func normMsg(s string) string {
+	// protobuf-go deliberately varies "proto: " / "proto:\u00a0" between builds
+	s = strings.ReplaceAll(s, "\u00a0", " ")
 	s = reAddr.ReplaceAllString(s, "0x?")
 	s = reQuoted.ReplaceAllString(s, `"?"`)
 	// names of generated things
@@ -206,8 +208,10 @@ func runC18(cfg *vh.Config) error {
 			}
 			bad := o.Class == "panic" || o.Class == "fatal" || o.Class == "timeout"
 			switch kind {
-			case "link", "worker", "spawn":
+			case "link", "spawn":
 				return fmt.Errorf("case %d: %s: %s %s", c.id, o.Step, o.Class, o.Msg)
+			case "worker":
+				fail("C18 worker process died outside a step", "never panics or recurses forever", o.Msg)
 			case "set":
 				if bad {
 					fail(fmt.Sprintf("C18 SchemaSetFromFiles -> %s in %s: %s", o.Class, o.Site, normMsg(o.Msg)), "building J5 schemas returns a schema set or an error; it never panics or recurses forever", o.Msg)
